@@ -12,7 +12,6 @@ use super::*;
 use crate::input::genotype::{Genotype, Skipped};
 use crate::input::sample::population;
 use crate::spectrum::project::PartialProjection;
-use crate::array::Shape;
 
 #[path = "../util.rs"]
 mod util;
@@ -423,100 +422,6 @@ macro_rules! stubs_h {
         }
     };
 }
-
-// ------------------------------------------------------------------------------------------
-// C11 (thorough): two records through one reader = the cell-wise sum of each alone, in both orders
-// ------------------------------------------------------------------------------------------
-
-struct MemReader2 {
-    samples: Vec<Sample>,
-    first: Vec<genotype::Result>,
-    second: Vec<genotype::Result>,
-    served: u8,
-}
-
-impl genotype::Reader for MemReader2 {
-    fn current_contig(&self) -> &str {
-        "c"
-    }
-    fn current_position(&self) -> usize {
-        self.served as usize
-    }
-    fn read_genotypes(&mut self) -> ReadStatus<Vec<genotype::Result>> {
-        self.served += 1;
-        if self.served == 1 {
-            ReadStatus::Read(self.first.clone())
-        } else if self.served == 2 {
-            ReadStatus::Read(self.second.clone())
-        } else {
-            ReadStatus::Done
-        }
-    }
-    fn samples(&self) -> &[Sample] {
-        &self.samples
-    }
-}
-
-/// accumulate what `Runner::run` accumulates for the records served by the reader (no projection)
-fn accumulate<const D: usize, const M: usize>(assign: [u8; NS], a: [genotype::Result; NS], b: [genotype::Result; NS], shape: [usize; D]) -> [f64; M] {
-    let reader = MemReader2 {
-        samples: vec![sample_name(0, &assign), sample_name(1, &assign), sample_name(2, &assign)],
-        first: a.to_vec(),
-        second: b.to_vec(),
-        served: 0,
-    };
-    let r = Reader::new_unchecked(Box::new(reader), model_map::<D>(&assign), None);
-    let mut r = core::mem::ManuallyDrop::new(r);
-    let mut scs = Scs::from_zeros(Shape(vec_of(&shape)));
-    let mut k = 0;
-    while k < 2 {
-        match r.read_site() {
-            ReadStatus::Read(Site::Standard(cnt)) => scs[cnt] += 1.0,
-            ReadStatus::Read(Site::InsufficientData) => {}
-            _ => assert!(false),
-        }
-        k += 1;
-    }
-    let mut out = [0.0f64; M];
-    let mut q = 0;
-    while q < M {
-        out[q] = scs.inner().as_slice()[q];
-        q += 1;
-    }
-    core::mem::forget(scs);
-    out
-}
-
-fn two_records_case<const D: usize, const M: usize>(assign: [u8; NS], shape: [usize; D], pa: usize, pb: usize) {
-    let a = gts_with_pattern(pa);
-    let b = gts_with_pattern(pb);
-    // one pass over (a, b); the oracle is symmetric in the two records, so agreeing with it for
-    // every (a, b) is order-freedom as well as additivity
-    let ab = accumulate::<D, M>(assign, a, b, shape);
-    // oracle: each record alone puts 1 at its per-population ALT counts iff every selected sample is called
-    let mut exp = [0u32; M];
-    let oa = oracle::<D>(&assign, &a);
-    let ob = oracle::<D>(&assign, &b);
-    if oa.skipped == 0 {
-        exp[rank(&shape, &oa.alt)] += 1;
-    }
-    if ob.skipped == 0 {
-        exp[rank(&shape, &ob.alt)] += 1;
-    }
-    let mut q = 0;
-    while q < M {
-        assert!(ab[q] == exp[q] as f64);
-        q += 1;
-    }
-    kani::cover!(true, "reached end");
-}
-
-// @harness props=C11,C01,C10 tier=thorough group=f64 bounds=2-records,populations=2,assignment=[1,2,1],both-complete,allele-counts=symbolic timeout=3000
-stubs_h!(two_records_additive_a121_p77, stub_npop_2, 20, two_records_case::<2, 15>([1, 2, 1], [5, 3], 7, 7));
-// @harness props=C11,C01,C10 tier=thorough group=f64 bounds=2-records,populations=2,assignment=[1,2,1],first-with-a-missing-sample,allele-counts=symbolic timeout=3000
-stubs_h!(two_records_additive_a121_p57, stub_npop_2, 20, two_records_case::<2, 15>([1, 2, 1], [5, 3], 5, 7));
-// @harness props=C11,C01,C10 tier=thorough group=f64 bounds=2-records,populations=1,assignment=[1,1,0],all-missing-then-complete,allele-counts=symbolic timeout=3000
-stubs_h!(two_records_additive_a110_p47, stub_npop_1, 12, two_records_case::<1, 5>([1, 1, 0], [5], 4, 7));
 
 //@@BEGIN SITE_CASES@@
 // @harness props=C01,C08,C11,C10 tier=thorough bounds=populations=1,samples=3,assignment=[0,0,1](0=unselected),genotypes=any-of-6-results,dirty-pre-state timeout=1200
